@@ -540,7 +540,8 @@ func (r *RTPReceiver) readRTP(b []byte, reader *TrackRemote) (n int, a intercept
 		return 0, nil, io.EOF
 	}
 
-	if t := r.streamsForTrack(reader); t != nil {
+	// a track that was configured but whose streams were never opened has no interceptor yet
+	if t := r.streamsForTrack(reader); t != nil && t.rtpInterceptor != nil {
 		return t.rtpInterceptor.Read(b, a)
 	}
 
